@@ -37,7 +37,12 @@ RULE = ('direct: 1-4 cal products from 1-2 streams (own channel counts and centr
         'categorical sensors, shuffled/duplicated corrprod pairs, random chunkings on all three axes, a second '
         'chunking and a random loaded subset; in half of the cases the REQUEST also names products without correction '
         'sensors (for all inputs or for some of the inputs in use) before / between / after the present ones and '
-        'repeated names, lenient (skip_missing_products) or strict; '
+        'repeated names, lenient (skip_missing_products) or strict; every direct case makes THREE calc_correction '
+        'calls (main chunking, second chunking, data chunked [1, B-1] / [2, 1, B-3] on the baseline axis) whose '
+        'corrections names (vs the model for the token, 32 hex digits, pairwise different), chunks and results are '
+        'compared, all nine corrected arrays also computed in ONE dask graph; kernels: the three apply_*_correction '
+        'kernels called directly on the corrections of the case with NaN as nan+nanj / nan+0j / 0+nanj / nan+1j / '
+        '1+nanj; '
         'sol: solutions (zero / NaN / inf / powers of two; constant, varying in time, a zero at one solution time, '
         'dead inputs and channels, holes, all invalid, none at all; with or without channel axis; 1-3 targets) '
         'through calc_gain_correction / calc_bandpass_correction / calc_delay_correction, calc_correction and the '
@@ -53,7 +58,9 @@ RULE = ('direct: 1-4 cal products from 1-2 streams (own channel counts and centr
         'the spec is evaluated on those over the products the REQUEST calls for; every sixth case has a multi-part B '
         'with a part lacking a solution another part has, every sixth is reopened with preselect on channels '
         '(+dumps), 60% of the rest with preselect (channels [a,b), dumps [a,b) or both), and compared with the fully '
-        'opened one on the same dumps/channels; invert: complex gains/delays/bandpasses, 75% also reopened with '
+        'opened one on the same dumps/channels; every v4 case with an applied product opens two more views of the '
+        'store (one product fewer; without the first dump) and computes the corrected arrays of all views in one '
+        'dask graph vs alone (flags only between views with the same preselection); invert: complex gains/delays/bandpasses, 75% also reopened with '
         'preselect.  A case is one configuration; non-trivial when at least one factor is finite and not 1 and '
         '(direct, v4) at least one factor is NaN or two products are combined; distinct by the whole configuration')
 ASSUMPTIONS = ['correction values are finite or NaN (infinite corrections are outside the model: inf*0 is NaN in IEEE); '
